@@ -47,6 +47,24 @@ def target_kind(ctx, fi, expr):
     return kinds or {'unknown'}
 
 
+def counts_rows(m, name):
+    """Does `name` count the iterations of a loop of m: incremented by one in the loop body, or the index of
+    enumerate(<stream>, start=1) (pre-set to 0 for the empty stream)?"""
+    for lp in ast.walk(m.node):
+        if not isinstance(lp, ast.For):
+            continue
+        for st in lp.body:
+            if isinstance(st, ast.AugAssign) and pseudo(st.target) == name and isinstance(st.op, ast.Add) and \
+                    isinstance(st.value, ast.Constant) and st.value.value == 1:
+                return True
+        if isinstance(lp.iter, ast.Call) and u(lp.iter.func) == 'enumerate' and isinstance(lp.target, ast.Tuple) and \
+                pseudo(lp.target.elts[0]) == name:
+            start = {k.arg: k.value for k in lp.iter.keywords}.get('start')
+            if isinstance(start, ast.Constant) and start.value == 1:
+                return True
+    return False
+
+
 def check(ctx):
     run, repo, res = ctx.run, ctx.repo, ctx.res
     run.rule('R15', 'ORDER: finalize_file < tell/hash < close < write_file_to_output < unlink, all after the row loop and on the same '
@@ -62,7 +80,8 @@ def check(ctx):
                      'the tell() of the finished file, hashes a hexdigest')
     n = 0
     for c in res.subclasses(db):
-        for m in c.methods.values():
+        for m0 in c.methods.values():
+            m = ctx.N(m0, keep=('inc_attr', 'set_attr', 'get_attr'))
             for call in own_nodes(m.node):
                 if not (isinstance(call, ast.Call) and isinstance(call.func, ast.Attribute) and call.func.attr in SETTERS
                         and len(call.args) == 3):
@@ -92,10 +111,8 @@ def check(ctx):
                 srcs = [val] + [x for nm in facts.roots(val) for x in facts.values_of(nm)]
                 txt = ' '.join(u(s) for s in srcs)
                 if cname.endswith('rowcount'):
-                    okv = any(isinstance(s, ast.AugAssign) or True for s in srcs) and pseudo(val) is not None and \
-                        any(isinstance(st, ast.AugAssign) and pseudo(st.target) == pseudo(val) and isinstance(st.op, ast.Add)
-                            and isinstance(st.value, ast.Constant) and st.value.value == 1 for st in ast.walk(m.node))
-                    what = 'a counter incremented by one per row'
+                    okv = pseudo(val) is not None and counts_rows(m, pseudo(val))
+                    what = 'a counter that advances by one per row'
                 elif cname.endswith('bytes'):
                     okv = '.tell()' in txt or 'os.path.getsize(' in txt or '.st_size' in txt
                     what = 'the tell() of the written file'
@@ -106,13 +123,14 @@ def check(ctx):
                           'the recorded value is not %s' % what)
     run.floor('R19a', n, 7, 'stat writes')
     # the row counter counts exactly the rows it yields
-    rc = db.methods.get('row_counter')
+    rc = ctx.N(db.methods.get('row_counter'), keep=('inc_attr', 'set_attr', 'get_attr'))
     from sa.model import row_loops, rowloop_signature
-    loop, var, _ = row_loops(rc)[0]
+    loops_ = [n for n in own_nodes(rc.node) if isinstance(n, ast.For)]
+    loop = loops_[0]
+    var = loop.target.id if isinstance(loop.target, ast.Name) else loop.target.elts[-1].id
     for s in rowloop_signature(rc, loop, var):
-        incs = [x for x in ast.walk(loop) if isinstance(x, ast.AugAssign)]
-        run.check(len(incs) == 1 and len(s.yields) == 1 and not s.guards, 'R19a', where(repo, loop), rc.qualname,
-                  'one increment and one yield per row, unconditionally', 'rows are counted that are not written, or vice versa')
+        run.check(len(s.yields) == 1 and s.yields[0][0] == 'identity' and not s.guards, 'R19a', where(repo, loop), rc.qualname,
+                  'one yield per row, unconditionally', 'rows are counted that are not written, or vice versa')
     # row_counter wraps the stream *after* the writer (counts what was written), per resource
     pr = db.methods.get('process_resources')
     facts = Facts(pr, include_nested=False)
@@ -229,8 +247,8 @@ def check(ctx):
     run.check(not hits, 'DET', 'dataflows/processors/dumpers', 'dataflows.processors.dumpers:<package>', 'no nondeterministic source',
               'nondeterministic source in a dumper: %s' % [(where(repo, c), en) for c, en in hits])
     # the digest is MD5, for data files and for the package
-    for f in (fd.methods['hash_handler'], db.methods['process_resources']):
-        hs = [c for c in own_nodes(f.node) if isinstance(c, ast.Call) and (res.external_name(c) or '').startswith('hashlib.')]
+    for f in (ctx.N(fd.methods['hash_handler']), ctx.N(db.methods['process_resources'])):
+        hs = [c for c in ast.walk(f.node) if isinstance(c, ast.Call) and (res.external_name(c) or '').startswith('hashlib.')]
         run.check(len(hs) == 1 and res.external_name(hs[0]) == 'hashlib.md5', 'DET', f.where, f.qualname, 'hashlib.md5',
                   'the recorded hash is not an MD5 digest (%s)' % [res.external_name(h) for h in hs])
     # hash of exactly the bytes: hash_handler rewinds and reads to the end
